@@ -324,11 +324,11 @@ def obligations():
                           bound="1 stream (quick) / 2 streams; temperatures and contributions symbolic, heat-capacity flow rates from {1, 3} kW/K; both descriptions executed")
         obs += split(base, streams=[1])
         two = Obligation(f"C12.{nm}2.b", fn, kind="bounded", functions=fs, max_paths=2000000, timeout_ms=60000, doc=doc, tier="quick" if nm == "translate" else "thorough",
-                         time_budget_s=0 if nm == "translate" else 7200, bound="2 streams; temperatures and contributions symbolic, heat-capacity flow rates from {1, 3} kW/K")
+                         time_budget_s=0 if nm == "translate" else 3000, bound="2 streams; temperatures and contributions symbolic, heat-capacity flow rates from {1, 3} kW/K")
         obs += split(two, streams=[2], s0_dir=D, s1_dir=D, s0_cpv=list(CPS))
     obs += split(Obligation("C12.permute.b", ob_permute, kind="bounded", functions=fs + [StreamCollection._ensure_sorted], max_paths=200000, doc="PERMUTE",
                             bound="2 streams handed over in both orders (equal supply temperatures included)"), s0_dir=D, s1_dir=D)
-    obs += split(Obligation("C12.split.b", ob_split, kind="bounded", functions=fs, max_paths=200000, doc="SPLIT", timeout_ms=60000, tier="thorough", time_budget_s=7200,
+    obs += split(Obligation("C12.split.b", ob_split, kind="bounded", functions=fs, max_paths=200000, doc="SPLIT", timeout_ms=60000, tier="thorough", time_budget_s=3000,
                             bound="one stream cut in series or into two parallel branches, next to one other stream; temperatures symbolic"), split=["in_series_at_an_interior_temperature", "into_two_parallel_branches"], s0_dir=D, o0_dir=D, o0_cpv=list(CPS))
     obs += split(Obligation("C12.split1.b", ob_split_alone, kind="bounded", functions=fs, max_paths=200000, doc="SPLIT (the stream alone)", timeout_ms=30000,
                             bound="one stream alone, cut in series or into two parallel branches; temperatures symbolic"), split=["in_series_at_an_interior_temperature", "into_two_parallel_branches"])
